@@ -122,7 +122,7 @@ RULE = ("lengths {0,1,2} + {k*32768+d | k in 0..3, d in -2..2} + random <= 100 k
         "made afterwards must be unaffected.  Also: hashutil's module constants (ALGORITHMS, DEFAULT_ALGORITHMS, HASH_BLOCK_SIZE) are "
         "compared before/after every case; scripts clear the names list right after constructing the hasher; the routes call "
         "from_symlink directly, Content.from_file on /dev/null and on a directory, to_model() of visible and absent contents, and "
-        "the four *_to_* conversion helpers on every digest; thorough adds three inputs of 0.6-1 MiB.  RETURNED-CONTAINER channel: "
+        "the four *_to_* conversion helpers on every digest; thorough adds two inputs of 0.6 and 1 MiB through the MultiHash entry points.  RETURNED-CONTAINER channel: "
         "the dicts returned "
         "by digest()/hexdigest()/bytehexdigest() (and by model.Content.hashes()) are edited by the caller (clear, pop, overwrite "
         "every value, add keys, rotate values; a read-only container is tolerated) - in the chunked route after each of four "
@@ -364,8 +364,15 @@ def impl_routes(c):
     res["hg"] = guard(lambda: {"length": None, "d": {"sha1_git": hashutil.hash_git_data(data, "blob").hex()}})
 
     def cgo():
-        m = git_objects.content_git_object(model.Content.from_data(data))
-        return {"length": None, "d": {"manifest": hashlib.sha256(m).hexdigest()}, "sha1": hashlib.sha1(m).hexdigest()}
+        o = model.Content.from_data(data)
+        m = git_objects.content_git_object(o)
+        try:                                          # a content whose data is not attached has no git object: MissingData
+            import attr
+            git_objects.content_git_object(attr.evolve(o, data=None))
+            nodata = "returned"
+        except Exception as e:
+            nodata = exc_class(e)
+        return {"length": None, "d": {"manifest": hashlib.sha256(m).hexdigest()}, "sha1": hashlib.sha1(m).hexdigest(), "nodata": nodata}
     res["cg"] = guard(cgo)
 
     def mc():
@@ -1729,6 +1736,8 @@ def oracle(c, ires, mres):
         elif code == "cg":
             if r["sha1"] != blob_id:
                 return "sha1(content_git_object) is %s, git's blob id is %s" % (r["sha1"], blob_id)
+            if r.get("nodata", "Other(MissingData)") != "Other(MissingData)":
+                return "content_git_object of a content without data %s (the model: MissingData)" % r["nodata"]
         elif code in ("cf", "cs", "sp"):
             if bytes.fromhex(r["d"]["swhid"]).decode("ascii", "replace") != "swh:1:cnt:" + blob_id:
                 return "identify (%s) printed %r, expected swh:1:cnt:%s" % (code, bytes.fromhex(r["d"]["swhid"])[:80], blob_id)
@@ -1926,8 +1935,6 @@ def gen(rng, tier):
         if not quick and r > 0.9:
             n = rng.choice(edge)
         lengths.append((n, rng.choice(data_styles + ["rand", "text"]), rng.choice(cut_styles)))
-    if not quick:
-        lengths += [(1 << 20, "rand", "blocks"), ((1 << 20) + 1, "text", "around-blocks"), (600000, "zero", "whole")]   # large
     big_exec = 0
     for idx, (n, ds, cs) in enumerate(lengths):
         if cs == "bytes" and n > 3000:
@@ -1983,6 +1990,10 @@ def gen(rng, tier):
             if n <= 2000 and names and len(names) <= 3:
                 c["exec"] = ["ch"]
             cases.append(c)
+    if not quick:                                       # two large inputs through the MultiHash entry points
+        for n, ds, cs in (((1 << 20) + 1, "rand", "blocks"), (600000, "text", "around-blocks")):
+            cases.append({"kind": "names", "data": gen_data(rng, n, ds), "names": ["length"] + sorted(DEFAULT_ALGORITHMS),
+                          "length": "real", "cuts": gen_cuts(rng, n, cs), "sched": []})
     for k in range(24 if quick else 400):
         names = [a for a in universe if rng.random() < 0.4]
         kind = k % 4
